@@ -82,3 +82,8 @@ def freq(sides, i, N, df):
     if sides == "centerdc":
         return (i - half(N)) * df
     return i * df
+
+
+def wrap(x, n):
+    """x mod n for -n <= x < 2n, written without a symbolic modulus (keeps queries linear)"""
+    return V.s_ite(V.s_cmp("<", x, 0), x + n, V.s_ite(V.s_cmp(">=", x, n), x - n, x))
